@@ -46,7 +46,7 @@ impl DispatcherBuilder {
     }
     // C13: the hooks of a batch are its controller data's setup followed by everything inside the inner builder
     pub open spec fn batch_hooks(&self, idn: Ident, data_setup: Seq<int>) -> bool {
-        &&& idn.setup == data_setup + stages_setup_trace(self.stages_builder.stages@) + setup_trace_of(self.thread_local@)
+        &&& idn.setup == data_setup + (stages_setup_trace(self.stages_builder.stages@) + setup_trace_of(self.thread_local@))
         &&& idn.dispose == stages_dispose_trace(self.stages_builder.stages@) + dispose_trace_of(self.thread_local@)
     }
 }
